@@ -143,6 +143,16 @@ def size_instances(t):
                     nsize(NodeList.head(t)) == 1 + lsize(Node.children(NodeList.head(t))))]
 
 
+def unfold_size(t):
+    """the size measure of a node, one level (recursive definition over the finite tree)"""
+    return [nsize(t) >= 1,
+            Implies(Node.is_IfThenElse(t), And(nsize(t) == 1 + nsize(Node.ite_then(t)) + nsize(Node.ite_else(t)),
+                                               nsize(Node.ite_then(t)) >= 1, nsize(Node.ite_else(t)) >= 1)),
+            Implies(Node.is_IfThen(t), And(nsize(t) == 1 + nsize(Node.it_then(t)), nsize(Node.it_then(t)) >= 1)),
+            Implies(Node.is_ForLoop(t), And(nsize(t) == 1 + nsize(Node.body(t)), nsize(Node.body(t)) >= 1)),
+            Implies(Node.is_Block(t), And(nsize(t) == 1 + lsize(Node.children(t)), lsize(Node.children(t)) >= 0))]
+
+
 def unfold_node(t):
     """the defining equation of trk at a node *variable* whose constructor is known from a test"""
     N, T, E = Node, Trace, Event
@@ -279,7 +289,8 @@ class VNodeList(V):
             return NodeList.is_Cons(rest)
 
         def prologue():
-            for f in unfold_list(ex["$rest"].t):
+            for f in unfold_list(ex["$rest"].t) + size_instances(ex["$rest"].t) + size_instances(ex["$done"].t) \
+                    + [lsize(NodeList.tail(ex["$rest"].t)) >= 0, lsize(whole) >= 0]:
                 ctx.assume(f)
             it.assign(s.target, NODE.wrap(NodeList.head(ex["$rest"].t)))
 
